@@ -115,7 +115,8 @@ DOC_FRAGMENTS = {
     "tab": "a\tb", "nonascii": "ä π é", "backslash": "a \\ b \\n", "star_line": "*", "slash_end": "ends with /", "star_start": "*/", "quotes": 'say "hi" \'there\'',
     "example": ">>> f(1)\n... more\n2", "lt": "a < b > c",
 }  # fmt: skip
-DOC_ELEMENTS = ["module", "class", "function", "method", "parameter", "result", "attribute", "ctor"]
+# *_nosummary: the docstring starts directly with the section, there is no description text before it
+DOC_ELEMENTS = ["module", "class", "function", "method", "parameter", "result", "attribute", "ctor", "parameter_nosummary", "result_nosummary", "ctor_nosummary"]
 
 
 def render_doc(style: str, element: str, text: str, u: str) -> str:
@@ -148,6 +149,8 @@ def render_doc(style: str, element: str, text: str, u: str) -> str:
         return f'def f{u}(p: int) -> int:\n    """{ind(text, 4)}"""\n    ...\n'
     if element == "method":
         return f'class C{u}:\n    def f(self, p: int) -> int:\n        """{ind(text, 8)}"""\n        ...\n'
+    if element.endswith("_nosummary"):
+        return render_doc(style, element[: -len("_nosummary")], text, u).replace('"""Summary.\n', '"""', 1)
     if element == "parameter":
         return f'def f{u}(p: int) -> int:\n    """Summary.\n{section("param", "p", "int", text, 4)}    """\n    ...\n'
     if element == "result":
@@ -205,7 +208,7 @@ def run(rep: Report, tier: str, seed: int) -> None:
         for combo in combos:
             text = "\n\n".join(DOC_FRAGMENTS[k] for k in combo)
             for el in DOC_ELEMENTS:
-                if style == "PLAINTEXT" and el in ("parameter", "result", "attribute", "ctor"):
+                if style == "PLAINTEXT" and el.split("_")[0] in ("parameter", "result", "attribute", "ctor"):
                     continue
                 u = f"{next(uid):05d}"
                 units.append((f"doc:{style}:{el}:{'+'.join(combo)}", f"doc:{el}:" + ("has-comment-terminator" if "*/" in text else "+".join(combo)), {f"m{u}.py": render_doc(style, el, text, u)}))
@@ -231,11 +234,18 @@ def run(rep: Report, tier: str, seed: int) -> None:
     units.append(("struct:typevar-via-module", "struct:typevar-via-module", {f"tv{u}.py": f"from typing import TypeVar\n\nT{u} = TypeVar('T{u}')\n", f"m{u}.py": f"import typing\n\nfrom . import tv{u}\n\n\ndef f{u}(a: typing.IO[typing.AnyStr]) -> typing.AnyStr:\n    ...\n\n\ndef g{u}(a: tv{u}.T{u}) -> tv{u}.T{u}:\n    return a\n\n\nclass K{u}(typing.Generic[tv{u}.T{u}]):\n    def m(self, a: tv{u}.T{u}) -> tv{u}.T{u}:\n        return a\n"}))
     groups.append((units, Opts()))
     groups.append((units, Opts(convert=True)))
+    # (e) default values that only the DOCSTRING mentions, written the Python way (numpydoc; parameter without type hint)
+    units = []
+    for tag, dflt in (("squote", "'auto'"), ("true", "True"), ("none", "None"), ("tuple", "(1, 2)")):
+        u = f"{next(uid):05d}"
+        units.append((f"docdefault:{tag}", f"docdefault:{tag}", {f"m{u}.py": f"def f{u}(a={dflt}) -> None:\n    \"\"\"Summary.\n\n    Parameters\n    ----------\n    a : str, default={dflt}\n        Description.\n    \"\"\"\n"}))
+    groups.append((units, Opts(docstyle="NUMPYDOC")))
+    groups.append((units, Opts(docstyle="NUMPYDOC", tsp="DOCSTRING")))
 
     rep.rule = (
         f"(a) 33 Safe-DS keyword table entries (verbatim where Python allows + 'kw_' which conversion turns into the keyword) and 13 identifier shapes in {len(POSITIONS)} positions x naming conversion off/on;"
         " (b) string defaults (typed/untyped) and Literal values over all strings of length <=%d over an 11-character alphabet of special characters, 13 number spellings;"
-        " (c) %s of 15 documentation fragments on 8 element kinds x 4 docstring styles; (d) structural letters. One case per module; distinct = distinct (case label, options)"
+        " (c) %s of 15 documentation fragments on 11 element kinds (incl. docstrings that start directly with the parameter / result section) x 4 docstring styles; (d) structural letters; (e) 4 defaults written in a numpydoc docstring the Python way. One case per module; distinct = distinct (case label, options)"
         % (2 if tier == "thorough" else 1, "singles and ordered pairs" if tier == "thorough" else "singles")
     )
     stats: dict[str, int] = {}
